@@ -49,7 +49,7 @@ def main():
         if rc != 0:
             print(json.dumps(res), out[-300:])
             return 1
-        if 'lexer.l' in open(patch).read():
+        if '+++ b/Compiler/src/lexer.l' in open(patch).read():
             sh('flex --outfile=./src/lex.yy.c --header-file=./include/lex.yy.h --noline --nounistd ./src/lexer.l', cwd=os.path.join(wt, 'Compiler'))
         rc, out = sh('cmake -G Ninja -S . -B _build >/dev/null && cmake --build _build -j8', cwd=wt)
         res['facts']['compiles'] = rc == 0
@@ -57,7 +57,7 @@ def main():
         res['facts']['tests_pass'] = rc == 0 and '100% tests passed' in out
         # the cmake build regenerates lex.yy.c in the source tree when flex is installed: put the patched sources back
         sh('git checkout -- . && git apply %s' % patch, cwd=wt)
-        if 'lexer.l' in open(patch).read():
+        if '+++ b/Compiler/src/lexer.l' in open(patch).read():
             sh('flex --outfile=./src/lex.yy.c --header-file=./include/lex.yy.h --noline --nounistd ./src/lexer.l', cwd=os.path.join(wt, 'Compiler'))
         rc, out = sh(build_demo, cwd=wt)
         rc, out = sh('%s/demo_bin' % wt, cwd=wt, timeout=300)
